@@ -146,4 +146,17 @@ MUTANTS = [
                 this->exception_caught(event, get_fsm_argument(), e);
                 result = process_result::HANDLED_FALSE;
             }""", """            result = do_process_event(event, info);""")]),
+
+ dict(name='flags-back-composite-false', prop='C17', rule='C17.table', edits=[(B, """            // composite => forward
+            an_entry[offset] = &FlagHandler<T,Flag>::forward;""", """            // composite => forward
+            an_entry[offset] = &FlagHandler<T,Flag>::flag_false;""")]),
+ dict(name='flags-mp11-or-init-true', prop='C17', rule='C17.visitor', edits=[('include/boost/msm/backmp11/detail/state_visitor.hpp', """    bool m_result{false};
+};
+template <typename Flag>
+class is_flag_active_visitor<Flag, flag_and>""", """    bool m_result{true};
+};
+template <typename Flag>
+class is_flag_active_visitor<Flag, flag_and>""")]),
+ dict(name='copy-back-missing-history', prop='C15', rule='C15.fields', edits=[(B, "         m_history = rhs.m_history;\n         m_event_processing = rhs.m_event_processing;", "         m_event_processing = rhs.m_event_processing;")]),
+ dict(name='serialize-back11-missing-history', prop='C16', rule='C16.fields', edits=[(B11, "        ar & m_history;\n", "")]),
 ]
